@@ -71,7 +71,7 @@ def gen_op(rng, state):
     op = rng.choices(
         ["reg", "reset", "remove", "reg_bad", "reg_dup_class", "reg_builtin_symbol", "reg_invalid_symbol", "reg_builtin_class",
          "remove_builtin", "set_default", "reset_defaults", "parse", "echo"],
-        [6, 4, 3, 1.2, 1.2, 1, 1, 1, 1, 1.5, 1.2, 1.5, 2.5],
+        [6, 4, 3, 2.0, 1.2, 1, 1, 1, 1, 1.5, 1.2, 1.5, 2.5],
     )[0]
     if op == "echo" and state["last_reg"] is not None:
         # right after a membership change: the same symbol again with the private flag flipped
@@ -80,6 +80,10 @@ def gen_op(rng, state):
     if op in ("reg", "echo"):
         return {"op": "register", "symbol": rng.choice(syms), "cls": 0, "good": True, "private": rng.random() < 0.4}
     if op == "reg_bad":
+        if rng.random() < 0.5:
+            # the same (possibly already validated and registered) class, but a definition whose
+            # declared equation contradicts the numeric impedance
+            return {"op": "register", "symbol": rng.choice(syms), "cls": 0, "good": True, "private": False, "equation": rng.choice(["2*R", "R + 1", "R*I"])}
         return {"op": "register", "symbol": rng.choice(syms), "cls": 2, "good": False, "private": False}
     if op == "reg_dup_class":
         return {"op": "register", "symbol": rng.choice(syms), "cls": 1, "good": True, "private": rng.random() < 0.3}
@@ -114,10 +118,10 @@ def _mkclass(good):
     return UserElement
 
 
-def _mkdef(cls, symbol):
+def _mkdef(cls, symbol, equation="R"):
     from pyimpspec import ElementDefinition, ParameterDefinition
 
-    return ElementDefinition(Class=cls, symbol=symbol, name="user element", description="user element", equation="R",
+    return ElementDefinition(Class=cls, symbol=symbol, name="user element", description="user element", equation=equation,
                              parameters=[ParameterDefinition("R", "ohm", "resistance", 1.0, 0.0, np.inf, False)])
 
 
@@ -214,15 +218,16 @@ def apply(state, rec):
             if cid not in classes:
                 classes[cid] = _mkclass(rec["good"])
             cls = classes[cid]
-            expect_refused = (not rec["good"]) or (s in model and model[s]["cls"] != cid)
+            inconsistent = (not rec["good"]) or rec.get("equation", "R") != "R"
+            expect_refused = inconsistent or (s in model and model[s]["cls"] != cid)
             try:
-                register_element(_mkdef(cls, s), private=rec["private"])
+                register_element(_mkdef(cls, s, rec.get("equation", "R")), private=rec["private"])
                 ok = True
             except (KeyError, ValueError, TypeError) as e:
                 ok = False
             if ok and expect_refused:
-                why = "its numeric impedance contradicts its declared equation" if not rec["good"] else f"the symbol is already registered for another class"
-                return _viol("refused-op-accepted", rec, f"register_element accepted a definition although {why}", kind="inconsistent" if not rec["good"] else "duplicate-symbol")
+                why = "its numeric impedance contradicts its declared equation" if inconsistent else f"the symbol is already registered for another class"
+                return _viol("refused-op-accepted", rec, f"register_element accepted a definition although {why}", kind="inconsistent" if inconsistent else "duplicate-symbol")
             if not ok and not expect_refused:
                 return _viol("valid-op-refused", rec, f"register_element refused a valid definition for the unregistered symbol {s} (registry model: {sorted(model)})")
             if ok:
@@ -232,7 +237,7 @@ def apply(state, rec):
                     model[s] = {"cls": cid, "private": bool(rec["private"])}
                 state["last_reg"] = (s, bool(rec["private"]))
             else:
-                stats["refused"]["register_" + ("inconsistent" if not rec["good"] else "duplicate_symbol")] += 1
+                stats["refused"]["register_" + ("inconsistent" if inconsistent else "duplicate_symbol")] += 1
         elif op == "register_builtin_symbol":
             try:
                 register_element(_mkdef(_mkclass(True), rec["symbol"]))
